@@ -8,7 +8,11 @@ from mc import pool, seams, factory_engine as F
 from . import c12
 
 CHARS = ["a", '"', "\\", ",", "[", "]", "\n", "é", " ", ";", "{", "#"]
-PROBES = ['a"; discard; #', "a\\", 'x" , "y', "a]", "${x}", "a\r\nb"]
+PROBES = ['a"; discard; #', "a\\", 'x" , "y', "a]", "${x}", "a\r\nb",
+          # values that look like already-encoded Sieve syntax: multi-line literals (complete, with an inner terminator, with an injected
+          # tail, with a separator only str.splitlines() knows), tags, numbers, a bracket comment
+          "text:\na\n.", "text:\na\n.\nb\n.", "text:\nBack\n.\n;\ndiscard;\nstop;\nreject text:\nbye\n.", "text:\u2028.", "text:\n.",
+          'text:\nsay "hi"\n.', ":copy", ":is", "10", "1K", "/* x */", "true"]
 BENIGN = "BENIGNVALUE"
 
 
@@ -176,6 +180,12 @@ def kind_task(t):
     ns = seams.load()
     name = (ACTION_KINDS if is_action else COND_KINDS)[kind_i][0]
     vals = values(maxlen) if name not in NO_HOLE else ["x"]
+    # the description language itself gives a meaning to a leading colon among action arguments (a tag) and to a keyword in the first
+    # position of a condition (true/false/exists/...): such a value is a different description, not a hostile value of this one
+    if is_action:
+        vals = [v for v in vals if not v.startswith(":")]
+    elif name == "header-name-hole":
+        vals = [v for v in vals if v != "true"]
     viols = []
     n = 0
     distinct = set()
